@@ -403,7 +403,7 @@ func (m *Model) recordDerived(v ssa.Value, depth int) bool {
 			return true
 		}
 		// a library helper that returns (a projection of) record data
-		if g := x.Call.StaticCallee(); g != nil && g.Pkg == m.P.Leader && len(g.Blocks) > 0 {
+		if g := x.Call.StaticCallee(); g != nil && m.isLib(g) && len(g.Blocks) > 0 {
 			for _, b := range liveBlocks(g) {
 				if ret, ok := b.Instrs[len(b.Instrs)-1].(*ssa.Return); ok && b != g.Recover {
 					for i := range ret.Results {
@@ -418,7 +418,7 @@ func (m *Model) recordDerived(v ssa.Value, depth int) bool {
 	case *ssa.Parameter:
 		// record data handed to a library helper
 		f := x.Parent()
-		if f == nil || f.Pkg != m.P.Leader {
+		if f == nil || !m.isLib(f) {
 			return false
 		}
 		idx := -1
